@@ -343,9 +343,13 @@ def r3_alignment(chk):
         chk.decide(ok, "C11.R3", f"{f.key}:best-rotation-and-rmsd-updated-together", f.where(gs[0] if gs else None), f"if {rm} < {best_r}: {best_r}, {best_m} = {rm}, {rot}",
                    "the smallest RMSD and the rotation kept for it are not updated together under one `<` test: the RMSD returned is not the one of the rotation applied")
         if f.qualname.endswith("Molecule.align_to_ref_coords"):
+            from ..canon import Env
+
+            aenv = Env(f.node)
+            keepn = {n for n in (best_m, best_r) if n}
             tr = [c for c in walk_no_nested(f.node) if isinstance(c, ast.Call) and norm(c.func) == "self.transform"]
-            rets = [r for r in walk_no_nested(f.node) if isinstance(r, ast.Return)]
-            ok2 = len(tr) == 1 and norm(tr[0].args[0]) == best_m and len(rets) == 1 and norm(rets[0].value) == best_r
+            rets = [r for r in walk_no_nested(f.node) if isinstance(r, ast.Return) and r.value is not None]
+            ok2 = len(tr) == 1 and norm(aenv.expand(tr[0].args[0], keep=keepn)) == best_m and len(rets) >= 1 and all(norm(aenv.expand(r.value, keep=keepn)) == best_r for r in rets)
             cen = doc_sorted(f.node, [c for c in walk_no_nested(f.node) if isinstance(c, ast.Call) and norm(c.func) == "self.translate"])
             ok2 = ok2 and cen and cen[0].lineno < un[0].lineno and norm(cen[0].args[0]).startswith("-")
             chk.decide(bool(ok2), "C11.R3", f"{f.key}:applies-kept-rotation-returns-kept-rmsd", f.where(tr[0] if tr else None), f"centre, fit, transform({best_m}), return {best_r}",
